@@ -67,6 +67,14 @@ CHECKS.update({
          "Exploration: operator shapes, Bits forwards, num-traits / num-integer / subtle / zeroize impls, Sum/Product return exactly what the inherent method returns (or both panic); evidence counts, per kind of plausible mis-forward, how many cases could have exposed it.",
          "Reference is the inherent method (itself decided by C01-C13); float default methods and Uint shift amounts above usize not asserted.", "DESIGN.md 4 C20"),
 })
+CHECKS.update({
+ "C04": ("property-based testing: stateful register-machine histories over 142 safe producers with an invariant after every step (proptest, op lists shrunk as one value) + exhaustive pairs x producers for tiny widths + generated programs compiled with rustc for ill-formed (BITS,LIMBS) pairs",
+         "Exploration: after every step of generated call histories every register is canonical and ==, Hash, cmp, <, <=, min, max, is_zero agree with the integers; Part B compiles and runs probe programs that try to obtain a value of an ill-formed Uint<BITS,LIMBS> through 60 constants/constructors x 21 ill-formed pairs (quick: seeded sample; thorough: full product), each with control twins.",
+         "No model of operation semantics is kept (cannot alarm about anything but the invariant); catalogue of producers/constructors is fixed; rustc trusted.", "DESIGN.md 4 C04"),
+ "C19": ("property-based testing over generated programs: literals from a proptest strategy with a reference literal model, compiled with rustc against the working tree; run-time differential against from_str_radix and the model; metamorphic pass-through relation; shrinking by recompiling single-literal programs",
+         "Exploration: ~2400 literals (quick) in positive programs (value = model limbs = run-time parse, exact width and type, nesting depth 0..4, whole-program and per-literal macro invocations), negative programs (every REJECT literal must be a compile error; unflagged lines recompiled alone), and pass-through token soups (uint!{E} == E in value and type).",
+         "Trusts rustc and num-bigint; only token shapes that reach the macro are generated.", "DESIGN.md 4 C19"),
+})
 NOT_YET = {}
 
 def main():
@@ -97,10 +105,12 @@ def main():
             "guard": "cfg(recmo_uint_verif)",
             "enable": "RUSTFLAGS --cfg recmo_uint_verif via /verif/harness/.cargo/config.toml (and /verif/fuzz/.cargo/config.toml)",
             "baseline_off_cmd": "cd /repo && cargo test --workspace --no-fail-fast --offline",
-            "source_commits": ["47fc03b"],
+            "source_commits": ["47fc03b", "ce99d53"],
             "add_only": True,
         },
         "engines": [
+            {"name": "probe", "path": "/verif/harness/src/probe.rs", "serves_properties": ["C04", "C19"],
+             "kind_free_text": "generated Rust programs compiled with rustc --emit=link against rlibs built from /repo's working tree (cargo package probe_pkg), executed, diagnostics / stdout interpreted"},
             {"name": "vcore", "path": "/verif/harness", "serves_properties": sorted(CHECKS.keys()),
              "kind_free_text": "Rust crate: proptest-driven structured generation (TestRunner with fixed seeds, shrinking, replay files), exhaustive small-width enumeration, BigUint / reference-codec oracles, evidence writer"},
         ],
